@@ -18,7 +18,7 @@ import sys
 import threading
 import time
 
-from ..monitors.reach import Reach
+from ..monitors.reach import Reach, opt
 
 ID = "C18"
 RULE = (
@@ -425,10 +425,10 @@ def interleavings(counts):
 def run(shard, rec, rng):
     from werkzeug import local as L
 
-    reach = Reach(rec, {"Local.__setattr__": L.Local.__setattr__, "Local.__delattr__": L.Local.__delattr__, "Local.__release_local__": L.Local.__release_local__,
-                        "Local.__getattr__": L.Local.__getattr__, "Local.__iter__": L.Local.__iter__,
-                        "LocalStack.push": L.LocalStack.push, "LocalStack.pop": L.LocalStack.pop, "LocalStack.__release_local__": L.LocalStack.__release_local__,
-                        "LocalProxy.__init__": L.LocalProxy.__init__, "LocalManager.cleanup": L.LocalManager.cleanup, "_ProxyLookup.__get__": L._ProxyLookup.__get__})
+    reach = Reach(rec, {"Local.__setattr__": opt(lambda: L.Local.__setattr__), "Local.__delattr__": opt(lambda: L.Local.__delattr__), "Local.__release_local__": opt(lambda: L.Local.__release_local__),
+                        "Local.__getattr__": opt(lambda: L.Local.__getattr__), "Local.__iter__": opt(lambda: L.Local.__iter__),
+                        "LocalStack.push": opt(lambda: L.LocalStack.push), "LocalStack.pop": opt(lambda: L.LocalStack.pop), "LocalStack.__release_local__": opt(lambda: L.LocalStack.__release_local__),
+                        "LocalProxy.__init__": opt(lambda: L.LocalProxy.__init__), "LocalManager.cleanup": opt(lambda: L.LocalManager.cleanup), "_ProxyLookup.__get__": opt(lambda: L._ProxyLookup.__get__)})
     cfg = TIERS[shard["_tier"]]
     if shard["kind"] == "stress":
         stress(L, rec, rng, cfg["stress_ops"])
